@@ -363,6 +363,41 @@ pub fn probe_indices(n: usize, w: usize, rng: &mut Rng) -> Vec<usize> {
 }
 /// sizes of the LARGE probe images: above typical "parallelise / vectorise from here on" thresholds (>= 512*512 pixels),
 /// with pixel counts that are not multiples of 2, 4, 8 or 16
+/// positions where two results differ bit for bit (first and last few, the rest evenly spread), at most `cap`
+pub fn diff_positions(a: &[[f32; 3]], b: &[[f32; 3]], cap: usize) -> Vec<usize> {
+    let all: Vec<usize> = (0..a.len().min(b.len())).filter(|&i| (0..3).any(|k| a[i][k].to_bits() != b[i][k].to_bits())).collect();
+    if all.len() <= cap {
+        return all;
+    }
+    let mut v: Vec<usize> = all[..8].to_vec();
+    v.extend_from_slice(&all[all.len() - 8..]);
+    let step = all.len() / (cap - 16);
+    v.extend(all.iter().skip(8).step_by(step.max(1)).take(cap - 16));
+    v.sort_unstable();
+    v.dedup();
+    v
+}
+/// An untrusted SCREEN for position-dependent behaviour in large frames: the whole-frame result is compared with the
+/// result of converting the same pixels in small independent pieces; positions where the two differ are ADDED to the
+/// probe set.  Nothing is judged here - TLC judges the whole-frame value at every probed position against the
+/// standard, the screen only makes sure that a pixel the frame's size / neighbours / position got wrong is among them.
+pub fn screen_idx(idx: &mut Vec<usize>, whole: &Result<Vec<[f32; 3]>, &'static str>, px: &[[f32; 3]], f: &dyn Fn(&[[f32; 3]], usize, usize) -> Result<Vec<[f32; 3]>, &'static str>) {
+    let Ok(out) = whole else { return };
+    if out.len() != px.len() {
+        return;
+    }
+    let mut pieces: Vec<[f32; 3]> = Vec::with_capacity(px.len());
+    for c in px.chunks(509) {
+        match f(c, c.len(), 1) {
+            Ok(v) if v.len() == c.len() => pieces.extend(v),
+            _ => return,
+        }
+    }
+    idx.extend(diff_positions(out, &pieces, 48));
+    idx.sort_unstable();
+    idx.dedup();
+}
+
 /// frames of more than 2^20 pixels in the shapes that size-triggered code paths (tables, threads, vector loops) meet in
 /// practice: full HD, one single row, one single column, a 2^21+ rectangle
 pub fn huge(k: usize) -> (usize, usize) {
